@@ -199,10 +199,13 @@ class Lane(LaneBase):
         g = CausalGraph()
         for x in nodes:
             g.add_node(x)
-        for s, d, t in tedges:
+        from harness import gen
+        tedges = list(tedges)
+        for k, (s, d, t) in enumerate(tedges):
+            if validate and k == len(tedges) - 1 and len(tedges) >= 2:
+                gen.stress(g, ('c10-pre', tuple(nodes), tuple(tedges)))
             g.add_edge(s, d, edge_type=EdgeType(t), validate=validate)
         if validate:
-            from harness import gen
             gen.stress(g, ('c10', tuple(nodes), tuple(tedges)))
         return g
 
